@@ -267,7 +267,7 @@ def canon(v, skip_current_ts=True):
             if skip_current_ts and isinstance(p, xs.CurrentTimestampAttributeProperty):
                 continue
             raw = v.__dict__.get(p._local_var_name)  # noqa: SLF001
-            if raw is None and isinstance(p, (xs.ExtensionNodeProperty, xs._ElementListProperty, xs._AttributeListBase)):  # noqa: SLF001
+            if raw is None and isinstance(p, (xs.ExtensionNodeProperty, xs._AttributeListBase)):  # noqa: SLF001
                 raw = []     # what the descriptor's __get__ shows for "never set"
             items.append((name, canon(raw, skip_current_ts)))
         return (class_key(type(v)), tuple(items))
@@ -312,3 +312,11 @@ def canon_diff(a, b, path=''):
                 if d:
                     return d
     return path, a, b
+
+
+def min_len_flag(p) -> bool:
+    """model flag p_minlen: writing None for a mandatory member raises (NodeTextProperty with min_length; a named
+    NodeTextQNameProperty raises whenever it is mandatory)"""
+    if isinstance(p, xs.NodeTextQNameProperty):
+        return p._sub_element_name is not None  # noqa: SLF001
+    return bool(getattr(p, '_min_length', 0))
